@@ -63,6 +63,9 @@ type scen struct {
 	Named   map[string]int `json:"named,omitempty"`  // identity field -> actor index
 	SigBy   int            `json:"sig_by,omitempty"` // whose external-chain key signs the item (-1: garbage)
 	Note    string         `json:"note,omitempty"`
+	Nested  bool           `json:"nested,omitempty"` // inside a transaction: wrapped in authz.MsgExec(grantee = its signer)
+	Tx      []scen         `json:"tx,omitempty"`     // kind "tx": the messages of one transaction, in order
+	Pre     []scen         `json:"pre,omitempty"`    // honest deliveries that set the scene (must succeed)
 }
 
 type built struct {
@@ -662,6 +665,275 @@ func runOne(t *testing.T, run *emit.Run, s scen, fromCorpus bool) {
 	}
 }
 
+func (e *env) authzKeeper() authzkeeper.Keeper {
+	ir := shapeCdc.InterfaceRegistry()
+	authz.RegisterInterfaces(ir)
+	skywaytypes.RegisterInterfaces(ir)
+	treasurytypes.RegisterInterfaces(ir)
+	vtypes.RegisterInterfaces(ir)
+	evmtypes.RegisterInterfaces(ir)
+	router := baseapp.NewMsgServiceRouter()
+	router.SetInterfaceRegistry(ir)
+	skywaytypes.RegisterMsgServer(router, e.skyway)
+	treasurytypes.RegisterMsgServer(router, e.treasury)
+	vtypes.RegisterMsgServer(router, e.valset)
+	evmtypes.RegisterMsgServer(router, e.evm)
+	return authzkeeper.NewKeeper(runtime.NewKVStoreService(storetypes.NewKVStoreKey("authz")), shapeCdc, router, e.in.AccountKeeper)
+}
+
+// runTx: one multi-message transaction through ValidateBasic of every message, ONE pass of the
+// real decorator over the whole transaction, then the real handlers in order inside one cache
+// context (all-or-nothing, as baseapp.runMsgs). Messages marked nested travel inside an
+// authz.MsgExec whose grantee is their signer and are executed by the real authz keeper.
+func runTx(t *testing.T, run *emit.Run, s scen, fromCorpus bool) {
+	e := setup(t)
+	for _, g := range s.Grants {
+		if err := e.grant(g[0], g[1]); err != nil {
+			t.Fatal(err)
+		}
+	}
+	ak := e.authzKeeper()
+	type part struct {
+		sc   scen
+		b    *built
+		top  sdk.Msg
+		exec *authz.MsgExec
+	}
+	var parts []part
+	var top []sdk.Msg
+	for _, m := range s.Tx {
+		b, err := e.build(t, m)
+		if err != nil {
+			t.Fatalf("scenario %+v cannot be built: %v", m, err)
+		}
+		p := part{sc: m, b: b, top: b.msg}
+		if m.Nested {
+			if len(m.Signers) != 1 {
+				t.Fatalf("nested message needs exactly one signer")
+			}
+			x := authz.NewMsgExec(e.actors[m.Signers[0]], []sdk.Msg{b.msg})
+			p.exec, p.top = &x, &x
+		}
+		parts = append(parts, p)
+		top = append(top, p.top)
+	}
+	var o obs
+	var vbErr error
+	for _, m := range top {
+		if vb, ok := m.(sdk.HasValidateBasic); ok && vbErr == nil {
+			func() {
+				defer func() {
+					if r := recover(); r != nil {
+						vbErr = fmt.Errorf("panic: %v", r)
+					}
+				}()
+				vbErr = vb.ValidateBasic()
+			}()
+		}
+		if vbErr == nil {
+			// inner messages are validated by the authz handler; do it here as well so that the
+			// verdicts are comparable
+			if x, ok := m.(*authz.MsgExec); ok {
+				inner, _ := x.GetMessages()
+				for _, im := range inner {
+					if vb, ok := im.(sdk.HasValidateBasic); ok && vbErr == nil {
+						vbErr = vb.ValidateBasic()
+					}
+				}
+			}
+		}
+	}
+	func() {
+		defer func() {
+			if r := recover(); r != nil {
+				o.Ante, o.Err = false, fmt.Sprintf("panic: %v", r)
+			}
+		}()
+		reached := false
+		_, err := e.dec.AnteHandle(e.fgCtx, fakeTx{top}, false, func(ctx sdk.Context, tx sdk.Tx, sim bool) (sdk.Context, error) {
+			reached = true
+			return ctx, nil
+		})
+		o.Ante = err == nil && reached
+		if err != nil {
+			o.Err = err.Error()
+		}
+	}()
+	if vbErr == nil && o.Ante {
+		cctx, write := e.ctx.CacheContext()
+		before := e.scan(cctx)
+		var err error
+		for _, p := range parts {
+			func() {
+				defer func() {
+					if r := recover(); r != nil {
+						err = fmt.Errorf("panic: %v", r)
+					}
+				}()
+				if p.exec != nil {
+					_, err = ak.Exec(cctx, p.exec)
+				} else {
+					err = p.b.run(cctx)
+				}
+			}()
+			if err != nil {
+				break
+			}
+		}
+		if err == nil {
+			write()
+			o.Ok = true
+			after := e.scan(e.ctx)
+			for i := 0; i < nActors; i++ {
+				if before[i] != after[i] {
+					o.Touched = append(o.Touched, i)
+				}
+			}
+		} else {
+			o.Err = "handler: " + err.Error()
+		}
+	} else if vbErr != nil {
+		o.Err = "validate-basic: " + vbErr.Error()
+	}
+
+	// oracle
+	granted := func(granter, grantee int) bool {
+		for _, g := range s.Grants {
+			if g[0] == granter && g[1] == grantee {
+				return true
+			}
+		}
+		return false
+	}
+	auth := make([]bool, len(parts))
+	for i, p := range parts {
+		for _, sg := range p.sc.Signers {
+			if p.sc.Creator >= 0 && (sg == p.sc.Creator || granted(p.sc.Creator, sg)) {
+				auth[i] = true
+			}
+		}
+		if o.Ante && !auth[i] {
+			run.Violate("C03:ante-accepts-unauthorised-signer",
+				fmt.Sprintf("decorator accepted a %d-message transaction whose message %d (%s, creator %d, signers %v) has no signer that is its creator or holds its creator's fee grant", len(parts), i, p.sc.Kind, p.sc.Creator, p.sc.Signers), s)
+		}
+	}
+	if o.Ok {
+		for _, q := range o.Touched {
+			just := false
+			for i, p := range parts {
+				if q == p.sc.Creator && auth[i] {
+					just = true
+				}
+				for _, sg := range p.sc.Signers {
+					if sg == q {
+						just = true
+					}
+				}
+				for f, v := range p.sc.Named {
+					if v == q && beneficiary[p.sc.Kind+":"+f] {
+						just = true
+					}
+				}
+				for _, x := range p.b.ext {
+					if x == q {
+						just = true
+					}
+				}
+			}
+			if !just {
+				run.Violate("C03:tx-cross-principal",
+					fmt.Sprintf("a %d-message transaction changed state attributed to actor %d, who authorised none of its messages", len(parts), q), s)
+			}
+		}
+	}
+
+	// case
+	var gs, ms []string
+	for _, g := range s.Grants {
+		gs = append(gs, emit.Pair(emit.ZI(pid(g[0])), emit.ZI(pid(g[1]))))
+	}
+	cross := false
+	for _, p := range parts {
+		var fs []string
+		for _, f := range p.b.fields {
+			v, ok := p.sc.Named[f]
+			if !ok {
+				v = p.sc.Creator
+			}
+			fs = append(fs, emit.Pair(emit.Str(f), emit.ZI(pid(v))))
+		}
+		ms = append(ms, emit.Pair(emit.Str(p.sc.Kind), zlist(p.sc.Signers), emit.ZI(pid(p.sc.Creator)), emit.List(fs), zlist(p.b.ext), emit.Bool(p.b.biz)))
+		if len(p.sc.Signers) != 1 || p.sc.Signers[0] != p.sc.Creator {
+			cross = true
+		}
+		if p.sc.Nested {
+			run.Count("tx-shape", "nested-msgexec")
+		}
+	}
+	run.Case(fmt.Sprintf("C03.CTx %s %s %s %s %s %s", emit.ZI(pid(idxGov)), emit.List(gs), emit.List(ms), emit.Bool(o.Ante), emit.Bool(o.Ok), zlist(o.Touched)),
+		o.Ok || cross, map[string]any{"scenario": s, "observed": o})
+	run.Count("tx-size", fmt.Sprint(len(parts)))
+	switch {
+	case o.Ok:
+		run.Count("tx-outcome", "accepted")
+	case !o.Ante:
+		run.Count("tx-outcome", "rejected-ante")
+	default:
+		run.Count("tx-outcome", "rejected-handler")
+	}
+	if fromCorpus {
+		run.Count("source", "corpus")
+	}
+}
+
+var txKinds = []string{"treasury.MsgUpsertRelayerFee", "valset.MsgKeepAlive", "evm.MsgUploadUserSmartContractRequest", "skyway.MsgSendToRemote"}
+
+// genTx: 2-4 independent messages; one relayer/attacker key signs most of them; creators are the
+// signer itself, accounts that granted it a fee allowance, and accounts that did not; every order.
+func genTx(r *rand.Rand) scen {
+	s := scen{Kind: "tx", SigBy: -1}
+	a := pick(r, idxPig0, idxPig0+1, idxUser0, idxUser0+1, r.Intn(nVals))
+	n := 2 + r.Intn(3)
+	granters := map[int]bool{}
+	for i := 0; i < n; i++ {
+		m := scen{Kind: txKinds[r.Intn(len(txKinds))], Named: map[string]int{}, SigBy: -1, Signers: []int{a}}
+		c := r.Intn(nVals)
+		if r.Intn(4) == 0 {
+			c = anyActor(r)
+		}
+		switch r.Intn(5) {
+		case 0: // signs for itself
+			m.Creator = a
+		case 1, 2: // a creator that granted the signer a fee allowance
+			m.Creator = c
+			if c != a {
+				granters[c] = true
+			}
+		case 3: // a creator that did not
+			m.Creator = c
+		default: // the creator signs itself
+			m.Creator, m.Signers = c, []int{c}
+		}
+		if m.Kind == "treasury.MsgUpsertRelayerFee" {
+			m.Named["FeeSetting.ValAddress"] = m.Creator
+			if r.Intn(6) == 0 {
+				m.Named["FeeSetting.ValAddress"] = r.Intn(nVals)
+			}
+		}
+		m.Nested = r.Intn(4) == 0
+		s.Tx = append(s.Tx, m)
+	}
+	// grants only for some of the creators: a creator picked in case 3 may coincide with a granter
+	for g := range granters {
+		if g != a {
+			s.Grants = append(s.Grants, [2]int{g, a})
+		}
+	}
+	sort.Slice(s.Grants, func(i, j int) bool { return s.Grants[i][0] < s.Grants[j][0] })
+	r.Shuffle(len(s.Tx), func(i, j int) { s.Tx[i], s.Tx[j] = s.Tx[j], s.Tx[i] })
+	return s
+}
+
 // runAuthzExec: the inner message is wrapped in an x/authz MsgExec whose grantee is the tx signer.
 // The top-level message carries no metadata, so the decorator as written skips it; authz accepts
 // an inner message whose signer is the grantee without any grant and hands it to the msg-service
@@ -677,19 +949,7 @@ func runAuthzExec(t *testing.T, run *emit.Run, s scen) {
 	if len(s.Signers) != 1 {
 		t.Fatalf("authz scenario needs exactly one signer")
 	}
-	ir := shapeCdc.InterfaceRegistry()
-	authz.RegisterInterfaces(ir)
-	skywaytypes.RegisterInterfaces(ir)
-	treasurytypes.RegisterInterfaces(ir)
-	vtypes.RegisterInterfaces(ir)
-	evmtypes.RegisterInterfaces(ir)
-	router := baseapp.NewMsgServiceRouter()
-	router.SetInterfaceRegistry(ir)
-	skywaytypes.RegisterMsgServer(router, e.skyway)
-	treasurytypes.RegisterMsgServer(router, e.treasury)
-	vtypes.RegisterMsgServer(router, e.valset)
-	evmtypes.RegisterMsgServer(router, e.evm)
-	ak := authzkeeper.NewKeeper(runtime.NewKVStoreService(storetypes.NewKVStoreKey("authz")), shapeCdc, router, e.in.AccountKeeper)
+	ak := e.authzKeeper()
 	exec := authz.NewMsgExec(e.actors[s.Signers[0]], []sdk.Msg{b.msg})
 	for _, g := range s.Grants {
 		if err := e.grant(g[0], g[1]); err != nil {
@@ -773,6 +1033,10 @@ func TestCorr(t *testing.T) {
 				runAuthzExec(t, run, s)
 				continue
 			}
+			if s.Kind == "tx" {
+				runTx(t, run, s, true)
+				continue
+			}
 			runOne(t, run, s, true)
 		}
 	}
@@ -834,6 +1098,10 @@ func TestCorr(t *testing.T) {
 	// full deliveries
 	search := os.Getenv("VERIF_SEARCH") != ""
 	for i := 0; i < run.N; i++ {
+		if i%3 == 2 {
+			runTx(t, run, genTx(run.Rng), false)
+			continue
+		}
 		kind := drivenKinds[run.Rng.Intn(len(drivenKinds))]
 		hostile := run.Rng.Intn(100) < 15 || (search && run.Rng.Intn(3) == 0)
 		s := genScen(run.Rng, kind, hostile)
